@@ -109,13 +109,15 @@ pub fn judge_join(
     dev_nonce: u16,
     accepted: Option<&Judge>,
     joined_resp: Option<bool>,
+    creds_set: u8,
 ) -> Vec<V> {
     let mut out = vec![];
     // the JoinRequest on the air
     match tx {
         None => out.push(V { sig: format!("C11|{front}|no-joinrequest"), what: "nothing transmitted".into() }),
         Some(b) => {
-            let want = refcodec::encode_join_request(&APPEUI, &DEVEUI, dev_nonce, &APPKEY);
+            let (deveui, appeui, appkey) = creds(creds_set);
+            let want = refcodec::encode_join_request(&appeui, &deveui, dev_nonce, &appkey);
             if b != &want[..] {
                 let i = b.iter().zip(want.iter()).position(|(x, y)| x != y).unwrap_or(0);
                 let f = match i {
@@ -179,6 +181,10 @@ pub enum JEv {
     /// 6 replay of the accept of an earlier attempt, 7 data frame instead, 8 valid after a bad one in the same window
     Join { outcome: u8, nonce: u32, spec: u8 },
     Up,
+    /// the application configures the other credential set (identifiers and root key) for its next join
+    SwitchCreds,
+    /// `n` join attempts in a row that nobody answers (only in the straight-line part)
+    Silent { n: u32 },
 }
 
 fn spec_of(region: &str, k: u8) -> JaSpec {
@@ -213,6 +219,7 @@ pub struct Sys {
     earlier: Vec<Vec<u8>>,
     attempts: usize,
     outcome: String,
+    creds: u8,
 }
 
 impl Sys {
@@ -225,6 +232,7 @@ impl Sys {
             earlier: vec![],
             attempts: 0,
             outcome: String::new(),
+            creds: 0,
         }
     }
     fn snap(&self) -> VerifMac {
@@ -292,7 +300,7 @@ impl Sys {
         }
         self.earlier.extend(delivered.into_iter().filter(|b| b.len() == 17 || b.len() == 33));
         let after = self.snap();
-        out.extend(judge_join(&region, &front, &before, &after, tx.as_deref(), nonce_draw as u16, accepted.as_ref(), joined_resp));
+        out.extend(judge_join(&region, &front, &before, &after, tx.as_deref(), nonce_draw as u16, accepted.as_ref(), joined_resp, self.creds));
         self.outcome = format!("{}:{:?}", if accepted.is_some() { "accepted" } else { "not-accepted" }, joined_resp);
         out
     }
@@ -360,7 +368,7 @@ impl Sys {
 
 impl System for Sys {
     type Ev = JEv;
-    type Key = (VerifMac, usize, usize);
+    type Key = (VerifMac, usize, usize, u8);
 
     fn enabled(&self) -> Vec<JEv> {
         let mut v = vec![];
@@ -381,12 +389,34 @@ impl System for Sys {
             }
         }
         v.push(JEv::Up);
+        if self.attempts < 4 {
+            v.push(JEv::SwitchCreds);
+        }
         v
     }
 
     fn step(&mut self, ev: &JEv) -> Vec<V> {
         match ev {
             JEv::Up => self.first_uplink(),
+            JEv::Silent { n } => {
+                for i in 0..*n {
+                    let v = self.join(0x100 + i * 37, None, None);
+                    if !v.is_empty() || !explore::System::alive(self) {
+                        return v;
+                    }
+                }
+                vec![]
+            }
+            JEv::SwitchCreds => {
+                self.creds ^= 1;
+                if let Some(nb) = &mut self.nb {
+                    nb.apply(&Ev::UseCreds(self.creds));
+                } else if let Some(ac) = &mut self.ac {
+                    ac.apply(&AEv::UseCreds(self.creds));
+                }
+                self.outcome = "switch-creds".into();
+                vec![]
+            }
             JEv::Join { outcome, nonce, spec } => {
                 self.attempts += 1;
                 let sp = spec_of(&self.region, *spec);
@@ -413,7 +443,7 @@ impl System for Sys {
         if let VerifMacState::Joined(ref mut j) = s.state {
             j.fcnt_up = j.fcnt_up.min(1);
         }
-        (s, self.attempts, self.earlier.len().min(1))
+        (s, self.attempts, self.earlier.len().min(1), self.creds)
     }
 
     fn alive(&self) -> bool {
@@ -539,7 +569,40 @@ pub fn run(tier: Tier, replay: Option<&str>) {
             *outcomes.entry(k).or_insert(0) += v;
         }
     }
+    // ---- (C) long straight-line join histories on the 72-channel plans: k unanswered attempts, a join accepted with
+    // a CFList (which resets the walk over the join channels), then 72 more unanswered re-join attempts; every
+    // attempt must put a well-formed JoinRequest on the air
+    let mut line_attempts = 0u64;
+    for region in regions.iter().filter(|r| rr::is_fixed(r)) {
+        let rc = RunCfg { front: "nb".into(), dev: DevCfg::otaa(region) };
+        let cj = serde_json::to_value(&rc).unwrap();
+        let ks: Vec<u32> = (0..=72).collect();
+        let res: Vec<(u32, Vec<V>, Vec<JEv>)> = ks
+            .par_iter()
+            .map(|&k| {
+                let hist = vec![JEv::Silent { n: k }, JEv::Join { outcome: 1, nonce: 0x4321, spec: 1 }, JEv::Silent { n: 72 }];
+                let mut sys = Sys::new("nb", &rc.dev);
+                let mut vs = vec![];
+                for e in &hist {
+                    vs.extend(explore::System::step(&mut sys, e));
+                    if !vs.is_empty() {
+                        break;
+                    }
+                }
+                (k, vs, hist)
+            })
+            .collect();
+        for (k, vs, hist) in res {
+            line_attempts += k as u64 + 73;
+            ctx.tick(k as u64 + 73);
+            for v in vs {
+                ctx.violation(v.sig, v.what, json!({"cfg": cj.clone(), "history": serde_json::to_value(&hist).unwrap()}), 3);
+            }
+        }
+    }
+    transitions += line_attempts;
     let coverage = json!({
+        "line_join_attempts": line_attempts,
         "states": states,
         "transitions": transitions + sweep.load(Ordering::Relaxed),
         "traces_validated_against_impl": transitions + sweep.load(Ordering::Relaxed),
@@ -549,7 +612,7 @@ pub fn run(tier: Tier, replay: Option<&str>) {
         ],
         "evaluations": ctx.evals(),
         "distinct_nontrivial": states + sweep.load(Ordering::Relaxed),
-        "rule": "(A) sweep: every JoinAccept content (all 256 DLSettings x RxDelay x CFList variants incl. RFU types, zero / out-of-band frequencies and masks; JoinNonce/NetID/DevAddr/DevNonce boundary sets) delivered in RX1 or RX2 to a fresh device, after a failed attempt, and as a re-join from a joined state with non-default settings, followed by the first uplink; (B) BFS over histories of up to 4 join attempts (none / valid RX1 / valid RX2 / bad MIC / wrong key / wrong length / replay of an earlier accept / data frame / bad-then-valid) interleaved with uplinks, on nb, async and async+Class C",
+        "rule": "(A) sweep: every JoinAccept content (all 256 DLSettings x RxDelay x CFList variants incl. RFU types, zero / out-of-band frequencies and masks; JoinNonce/NetID/DevAddr/DevNonce boundary sets) delivered in RX1 or RX2 to a fresh device, after a failed attempt, and as a re-join from a joined state with non-default settings, followed by the first uplink; (B) BFS over histories of up to 4 join attempts (none / valid RX1 / valid RX2 / bad MIC / wrong key / wrong length / replay of an earlier accept / data frame / bad-then-valid) interleaved with uplinks and with the application switching to a second credential set, on nb, async and async+Class C; (C) 72-channel plans: for every k in 0..=72, k unanswered attempts, a join accepted with a CFList, 72 unanswered re-join attempts",
         "sweep_cases": sweep.load(Ordering::Relaxed),
         "bfs_depth": depth,
         "outcomes": outcomes,
